@@ -260,11 +260,15 @@ type clientStream struct {
 	// done must be set to true before it is closed
 	rCh chan []byte
 
-	// rMu protects done, rErr, and tr
+	// rMu protects done, rErr, tr, and failed
 	rMu  sync.RWMutex
 	done bool
 	rErr error
 	tr   HttpTrailer
+	// failed is set when RecvMsg gave up on a single-response stream (context
+	// done) after it had already taken the response message off rCh: that
+	// message is gone, so no later call may report a clean end of stream
+	failed error
 
 	// wMu protects w and wErr
 	wMu  sync.Mutex
@@ -323,6 +327,9 @@ func (cs *clientStream) Context() context.Context {
 func (cs *clientStream) readErrorIfDone() (bool, error) {
 	cs.rMu.RLock()
 	defer cs.rMu.RUnlock()
+	if cs.failed != nil {
+		return true, cs.failed
+	}
 	if !cs.done {
 		return false, nil
 	}
@@ -393,7 +400,11 @@ func (cs *clientStream) RecvMsg(m interface{}) error {
 			// it's available for a subsequent call to Trailer)
 			select {
 			case <-cs.ctx.Done():
-				return statusFromContextError(cs.ctx.Err())
+				err := statusFromContextError(cs.ctx.Err())
+				cs.rMu.Lock()
+				cs.failed = err
+				cs.rMu.Unlock()
+				return err
 			case _, ok := <-cs.rCh:
 				if ok {
 					// server tried to send >1 message!
